@@ -110,6 +110,7 @@ func addExtras(dir string) {
 	os.Symlink("/etc/hostname", filepath.Join(dir, "link-abs"))
 	os.Symlink("nope", filepath.Join(dir, "link-dangling"))
 	os.Symlink("../checkpoint", filepath.Join(dir, "tile", "link-up"))
+	os.Symlink("../notes", filepath.Join(dir, "tile", "linkdir")) // a layout directory that is a symlink to a directory inside the root
 }
 
 // ---------------------------------------------------------------------------------------
@@ -697,7 +698,8 @@ func (w *world19) requests(r *mrand.Rand, s *server, budget int, stats map[strin
 		"/tile/..%2fcheckpoint", "/tile/..%2fcheckpoint/", "/tile/..%2fcheckpoint/x", "/tile/..%2flog.v3.json", "/tile/..%2fnotes", "/tile/..%2fnotes/",
 		"/tile/..%2fnotes%2freadme.txt", "/tile/..%2fnotes/sub/deep.bin", "/tile/..%2fempty", "/tile/..%2flink-file", "/tile/..%2flink-dir",
 		"/tile/..%2flink-dir/readme.txt", "/tile/..%2flink-out", "/tile/..%2flink-updir", "/tile/..%2flink-updir/outside.txt", "/tile/..%2flink-abs",
-		"/tile/..%2flink-dangling", "/tile/link-up", "/tile/link-up/", "/tile/..%2fsp%20ace.txt", "/tile/..%2funi%c3%a9.txt", "/tile/..%2funi\xc3\xa9.txt",
+		"/tile/..%2flink-dangling", "/tile/link-up", "/tile/link-up/", "/tile/linkdir", "/tile/linkdir/", "/tile/linkdir/readme.txt",
+		"/tile/linkdir/sub/", "/tile/..%2flink-dir/", "/tile/..%2flink-dir/sub/", "/tile/..%2fsp%20ace.txt", "/tile/..%2funi%c3%a9.txt", "/tile/..%2funi\xc3\xa9.txt",
 		"/tile/..%2fper%25cent", "/tile/..%2fplus+sign", "/tile/..%2fplus%2bsign", "/tile/..%2fq%3fmark", "/tile/..%2fsemi;colon", "/tile/..%2fhash%23tag",
 		"/tile/..%2fa:b", "/tile/..%2fback%5cslash", "/tile/..%2fUPPER", "/tile/..%2fupper", "/tile/%00", "/tile/%ff", "/tile/..%2fcheckpoint%00",
 		"/tile/..%2fcheckpoint/%ff", "/tile/0/000/x", "/tile/0/000/", "/tile/0/000/%ff", "/tile/" + strings.Repeat("a", 300), "/tile/" + strings.Repeat("a", 255),
